@@ -4,6 +4,7 @@
 #
 # cfg = <cache>_<sse|nosse>_<cache|ts>_<seq|omp>[_asan|_tsan][_cap]
 #   cache: host (32768:1310720:56623104) small (4096:32768:65536) mid (32768:262144:1048576)
+#          c128 (8192:65536:131072) c256 (16384:131072:262144) c4m (16384:524288:4194304)
 #   cache|ts: block+header caches on / --enable-thread-safe
 #   _asan: clang ASan+UBSan   _tsan: gcc TSan   _cap: reduced allocator capacities (hook H4)
 # The guard M4RI_VERIF is always ON here (MANIFEST.hooks.enable); VERIF_NOHOOKS=1 turns it off.
@@ -19,6 +20,9 @@ case $cache in
   host)  L1=32768; L2=1310720; L3=56623104;;
   small) L1=4096;  L2=32768;   L3=65536;;
   mid)   L1=32768; L2=262144;  L3=1048576;;
+  c128)  L1=8192;  L2=65536;   L3=131072;;
+  c256)  L1=16384; L2=131072;  L3=262144;;
+  c4m)   L1=16384; L2=524288;  L3=4194304;;
   *) echo "bad cache $cache"; exit 2;;
 esac
 case $sse in sse) SSE=1;; nosse) SSE=0;; *) echo "bad sse"; exit 2;; esac
